@@ -360,6 +360,89 @@ def check_distances(ctx):
                 ctx.disagree("distance_pairwise differs from the model (bitwise)", {"op": "distance_pairwise", "p1": p1.tolist(), "p2": p2.tolist()})
 
 
+def check_wrappers(ctx):
+    """the object methods and optional arguments are the same maps as the functions the laws are checked on: `Points.to_gcs /
+    from_gcs / spherical_coordinates / rotate / translate`, `CoordinateSystem.convert_from_gcs_pairwise`, `distance_pairwise`
+    with a preallocated `out=` (fresh, garbage-filled, reused) and a `dtype=`, `Grid.dx/dy/dz/as_points/to_oriented_points`"""
+    import warnings
+
+    import arim.geometry as g
+
+    rng = ctx.rng
+    for it in range(25 * ctx.scale):
+        shape = [(), (5,), (2, 3)][it % 3]
+        c = rng.normal(size=(*shape, 3)) * 10.0 ** rng.integers(-2, 2)
+        B = rand_frame(rng)
+        o = rng.normal(size=3)
+        p = g.Points(c.copy(), "pts")
+        cj = {"op": "wrappers", "coords": c.tolist(), "bases": B.tolist(), "origin": o.tolist()}
+        ctx.case(("wrap", c.tobytes(), B.tobytes()), True)
+        pairs = [("Points.to_gcs", p.to_gcs(B, o).coords, g.to_gcs(c, B, o)),
+                 ("Points.from_gcs", p.from_gcs(B, o).coords, g.from_gcs(c, B, o)),
+                 ("Points.rotate", p.rotate(B, o).coords, g.rotate(c, B, o)),
+                 ("Points.translate", p.translate(o).coords, c + o)]
+        for nm, got, want in pairs:
+            if not np.array_equal(got, want):
+                ctx.violate(f"{nm} is not the function of the same name applied to the coordinates", cj, {"kind": "wrapper", "which": nm})
+        if not np.array_equal(p.coords, c):
+            ctx.violate("a Points method modified the points it was called on", cj, {"kind": "wrapper_inplace"})
+        r, th, ph = p.spherical_coordinates()
+        r2, th2, ph2 = g.spherical_coordinates(c[..., 0], c[..., 1], c[..., 2])
+        if not (np.array_equal(r, r2) and np.array_equal(th, th2) and np.array_equal(ph, ph2)):
+            ctx.violate("Points.spherical_coordinates differs from spherical_coordinates(x, y, z)", cj, {"kind": "wrapper", "which": "spherical"})
+        back = np.stack([r * np.sin(th) * np.cos(ph), r * np.sin(th) * np.sin(ph), r * np.cos(th)], axis=-1)
+        if not (near(back, c, np.abs(c).max()) and np.all(r >= 0) and np.all((0 <= th) & (th <= np.pi)) and np.all(np.abs(ph) <= np.pi)):
+            ctx.violate("Points.spherical_coordinates does not invert back to the Cartesian coordinates / ranges", cj, {"kind": "spherical"})
+        # pairwise conversion: x[i, j] = coordinate of point i in the frame whose origin is origins[j] (origins given in the CS)
+        n1, n2 = int(rng.integers(1, 6)), int(rng.integers(1, 5))
+        cs_ = g.CoordinateSystem(o, B[0], B[1])
+        pg = g.Points(rng.normal(size=(n1, 3)))
+        og = g.Points(rng.normal(size=(n2, 3)))
+        x, y, z = cs_.convert_from_gcs_pairwise(pg, og)
+        base = cs_.convert_from_gcs(pg).coords
+        for i in range(n1):
+            for j in range(n2):
+                want = base[i] - og.coords[j]
+                if not (x.shape == (n1, n2) and np.array_equal([x[i, j], y[i, j], z[i, j]], want)):
+                    ctx.violate("convert_from_gcs_pairwise[i, j] is not point i seen from origin j", {"op": "pairwise", "i": i, "j": j, "n1": n1, "n2": n2}, {"kind": "pairwise"})
+                    break
+        # distance_pairwise options
+        p1, p2 = g.Points(rng.normal(size=(n1, 3))), g.Points(rng.normal(size=(n2, 3)))
+        ref = g.distance_pairwise(p1, p2)
+        exp = np.array([[math.sqrt(sum((a - b) ** 2 for a, b in zip(u, v))) for v in p2.coords] for u in p1.coords])
+        out = np.full((n1, n2), np.nan if it % 2 else 1e30)
+        got = g.distance_pairwise(p1, p2, out=out)
+        if not (np.array_equal(out, ref) and (got is None or np.array_equal(got, ref)) and near(ref, exp, 10, 4)):
+            ctx.violate("distance_pairwise(out=prefilled array) does not leave the Euclidean distances in `out`", {"op": "distance_out", "n1": n1, "n2": n2}, {"kind": "distance_out"})
+        g.distance_pairwise(p2, p1, out=out.T if n1 != n2 else np.empty((n2, n1)))  # a second call must not disturb the first result
+        if not np.array_equal(ref, g.distance_pairwise(p1, p2)):
+            ctx.violate("distance_pairwise is not repeatable", {"op": "distance_repeat"}, {"kind": "distance_out"})
+        d32 = g.distance_pairwise(p1, p2, dtype=np.float32)
+        if d32.dtype != np.float32 or not np.allclose(d32, exp, rtol=2e-6, atol=1e-6):
+            ctx.violate("distance_pairwise(dtype=float32) is not the Euclidean distance to single precision", {"op": "distance_f32"}, {"kind": "distance"})
+        try:
+            g.distance_pairwise(p1, p2, out=np.empty((n1 + 1, n2)))
+            ctx.violate("distance_pairwise accepted an `out` of the wrong shape", {"op": "distance_out_shape"}, {"kind": "distance_out"})
+        except Exception:
+            pass
+        # grid accessors
+        d = float(rng.uniform(0.1, 1.0))
+        grid = g.Grid(0.0, float(rng.uniform(1, 3)), 0.0, 0.0, -1.0, float(rng.uniform(0.5, 2)), d)
+        with warnings.catch_warnings():
+            warnings.simplefilter("ignore")
+            ap = grid.as_points
+        t1 = grid.to_1d_points()
+        op_ = grid.to_oriented_points()
+        if not (np.array_equal(ap.coords, t1.coords) and np.array_equal(op_.points.coords, t1.coords)):
+            ctx.violate("Grid.as_points / to_oriented_points do not enumerate the grid as to_1d_points does", {"op": "grid_accessors"}, {"kind": "grid_order"})
+        if not (np.array_equal(op_.orientations.coords, np.broadcast_to(np.eye(3), (grid.numpoints, 3, 3)))):
+            ctx.violate("Grid.to_oriented_points does not carry the global axes", {"op": "grid_accessors"}, {"kind": "grid_order"})
+        for nm, vect in (("dx", grid.xvect), ("dy", grid.yvect), ("dz", grid.zvect)):
+            want = None if len(vect) < 2 else vect[1] - vect[0]
+            if getattr(grid, nm) != want:
+                ctx.violate(f"Grid.{nm} is not the spacing of its axis (None for a degenerate axis)", {"op": "grid_accessors", "which": nm}, {"kind": "grid_spacing"})
+
+
 def run(ctx):
     ctx.rule = ("random orthonormal frames (products of three rotations), origins and points over 5 decades, 0-d/1-d/2-d point arrays with per-point bases; "
                 "yaw/pitch/roll over two turns incl. right angles; isometries between random frames; spherical coordinates incl. the poles and the -x axis; "
@@ -370,6 +453,7 @@ def run(ctx):
     check_rotations(ctx)
     check_grids(ctx)
     check_distances(ctx)
+    check_wrappers(ctx)
     ctx.assumptions += ["einsum / matmul summation order is unspecified: conversions are compared within 32-64 ulp of the operand magnitude, grid vectors / box selection / distances bit for bit"]
 
 
